@@ -936,7 +936,7 @@ type storedHeaderSigner struct {
 }
 
 func (s *storedHeaderSigner) Sign(data []byte) ([]byte, error) { return s.inner.Sign(data) }
-func (s *storedHeaderSigner) Headers() jws.Headers              { return s.h }
+func (s *storedHeaderSigner) Headers() jws.Headers             { return s.h }
 
 func libSignerNoHeaders(k *ref.Key) client.Signer {
 	if k.Type == "Ed25519" {
